@@ -42,6 +42,15 @@ func (c *ContextManager) DestroyTransactionalContext() {
 	c.adminContext.DestroyTransactionalContext()
 }
 
+// NewExecutionContext returns the lunar context of a single flow execution: the global and the
+// flow contexts are the shared ones, the transactional context belongs to this execution only.
+func (c *ContextManager) NewExecutionContext() publicTypes.LunarContextI {
+	executionContext := NewLunarContext(c.globalContext)
+	executionContext.SetFlowContext(c.adminContext.GetFlowContext())
+	executionContext.InitiateTransactionalContext()
+	return executionContext
+}
+
 // GetLunarContext returns the lunar context
 func (c *ContextManager) GetLunarContext() LunarAdminContextI {
 	return c.adminContext
